@@ -12,10 +12,11 @@ symbreak: in either order] - i.e. the image is a k-clique.  `non_edges(G)` is pr
 non-adjacent pairs (every iteration yields iff its pair is not an edge; iteration counts at loop exit); its value at the call
 site is that filtered pair enumeration (`value_form`: the correspondence between the two statements is by reading).
 
-GraphIsomorphism (default nontrivial=False) - PROVED for all graphs G1, G2: a satisfies the formula iff f is a complete, surjective,
-functional, injective mapping V(G1) -> V(G2) (a bijection) such that for all u1 < u2 and v1 < v2 whose adjacency differs
-(G1-edge != G2-edge) f puts (u1, u2) neither on (v1, v2) nor on (v2, v1) - an isomorphism.  The `nontrivial` clause (a list
-comprehension with a filter) is outside the modelled subset: bounded tier.
+GraphIsomorphism - PROVED for all graphs G1, G2 and both values of `nontrivial`: a satisfies the formula iff f is a complete,
+surjective, functional, injective mapping V(G1) -> V(G2) (a bijection) such that for all u1 < u2 and v1 < v2 whose adjacency
+differs (G1-edge != G2-edge) f puts (u1, u2) neither on (v1, v2) nor on (v2, v1) - an isomorphism - and, when `nontrivial`, some
+vertex u <= min(|V1|, |V2|) is not mapped to itself.  GraphAutomorphism(G) - PROVED over that contract: an isomorphism G -> G
+that moves some vertex.
 
 RamseyWitnessFormula:
 
@@ -237,7 +238,7 @@ CONTRACTS.update({
 
 # ---- GraphIsomorphism ---------------------------------------------------------------------------------------------------------------
 I_ = 'cnfgen/families/graphisomorphism.py'
-CLASSMODELS['FormulaI'] = {'file': F_, 'real': 'CNF', 'fields': {'store': 'mclist', '_numvar': 'int', 'cls': 'int', 'header': 'opaque', '_mapping': 'any'}}
+CLASSMODELS['FormulaI'] = {'file': F_, 'real': 'CNF', 'fields': {'store': 'mclist', '_numvar': 'int', 'cls': 'int', 'header': 'opaque', '_mapping': 'obj:MapS'}}
 IROW = ('(implies(gadj(G1.gid, u1, u2) != gadj(G2.gid, v1, v2), not ({a} and {b}) and not ({x} and {y})))').format(
     a=sv('u1', 'v1'), b=sv('u2', 'v2'), x=sv('u1', 'v2'), y=sv('u2', 'v1'))
 
@@ -262,8 +263,8 @@ CONTRACTS.update({
     (V_, 'MapS.range'): {'assumed': 'range() = 1..m', 'params': {'u': 'none'}, 'returns_expr': 'range(1, self.m + 1)'},
     (I_, 'GraphIsomorphism'): {
         'property': ['C02', 'C08', 'C10'],
-        'params': {'G1': 'obj:GraphS', 'G2': 'obj:GraphS', 'nontrivial': 'const:False', 'formula_class': 'class:FormulaI'},
-        'supports': ['not nontrivial'],
+        'params': {'G1': 'obj:GraphS', 'G2': 'obj:GraphS', 'nontrivial': 'bool', 'formula_class': 'class:FormulaI'},
+        'returns': 'obj:FormulaI',
         'ghost_params': {'a': 'asg'},
         'raises': {},
         'loops': {0: {'nest': [dict(FR, counter='_a', ghost_at_entry={'S0': 'F.store'}, inv=KEEP3 + [acc(I1)]),
@@ -272,9 +273,30 @@ CONTRACTS.update({
                                dict(FR, inv=KEEP3 + [acc('({} and {} and {} and {})'.format(I1, I2, I3, I4))])]}},
         'ensures': [
             'sat(a, result.store) == (m_complete(a, {m}.gid) and m_surjective(a, {m}.gid) and m_functional(a, {m}.gid) and m_injective(a, {m}.gid) and '
-            'forall(lambda u1, u2, v1, v2: implies(1 <= u1 and u1 < u2 and u2 <= G1.n and 1 <= v1 and v1 < v2 and v2 <= G2.n, {row})))'.format(m=M, row=IROW),
+            'forall(lambda u1, u2, v1, v2: implies(1 <= u1 and u1 < u2 and u2 <= G1.n and 1 <= v1 and v1 < v2 and v2 <= G2.n, {row})) and '
+            # nontrivial: some vertex u (of both graphs) is NOT mapped to itself - the clause [-f(u,u) for u in 1..min(n1, n2)]
+            'implies(nontrivial, count(a, iofarr(lam1(lambda j: -mvar({m}.gid, 1 + j, 1 + j)), zmax(zmin(G1.n, G2.n), 0))) >= 1))'.format(m=M, row=IROW),
             'result._numvar == G1.n * G2.n',
             'result.cls == formula_class',
+            # the mapping group is handed to the callers (GraphAutomorphism)
+            'result._mapping.gid == {m}.gid'.format(m=M), 'result._mapping.n == G1.n', 'result._mapping.m == G2.n',
+            'forall(lambda u, v: implies(1 <= u and u <= G1.n and 1 <= v and v <= G2.n, 1 <= mvar({m}.gid, u, v) and mvar({m}.gid, u, v) <= result._numvar), '
+            'lambda u, v: mvar({m}.gid, u, v))'.format(m=M),
         ],
     },
 })
+
+
+CONTRACTS[(I_, 'GraphAutomorphism')] = {
+    'property': ['C02', 'C08', 'C10'],
+    'params': {'G': 'obj:GraphS', 'formula_class': 'class:FormulaI'},
+    'ghost_params': {'a': 'asg'},
+    'raises': {},
+    'ensures': [
+        'sat(a, result.store) == (m_complete(a, {m}.gid) and m_surjective(a, {m}.gid) and m_functional(a, {m}.gid) and m_injective(a, {m}.gid) and '
+        'forall(lambda u1, u2, v1, v2: implies(1 <= u1 and u1 < u2 and u2 <= G.n and 1 <= v1 and v1 < v2 and v2 <= G.n, {row})) and '
+        'count(a, iofarr(lam1(lambda j: -mvar({m}.gid, 1 + j, 1 + j)), G.n)) >= 1)'.format(m=M, row=IROW.replace('G1.', 'G.').replace('G2.', 'G.')),
+        'result._numvar == G.n * G.n',
+        'result.cls == formula_class',
+    ],
+}
